@@ -375,6 +375,62 @@ pub fn gen_lifecycle(rng: &mut Rng, spec: SpecId) -> History {
     History { spec, world: w, block, steps }
 }
 
+/// Directed family: repeated create / write / destroy cycles of ONE child, one script call per
+/// transaction, merges sprinkled at random positions (so that a destroy and the following
+/// re-creation fall into the same or into different merge groups), occasional balance steps.
+pub fn gen_recreate_cycles(rng: &mut Rng, spec: SpecId) -> History {
+    let mut w = World::default();
+    let eth = U256::from(10u64).pow(U256::from(18u8));
+    w.accounts.insert(SENDER1, Acct { balance: eth * U256::from(1000u64), ..Default::default() });
+    w.accounts.insert(FACTORY, Acct { nonce: 1, balance: U256::from(1000u64), code: factory_code(), ..Default::default() });
+    let salt = 1 + rng.below(2);
+    let child = child_address(salt);
+    // sometimes the child address already holds a destroyable contract with storage in the database
+    if rng.chance(1, 3) {
+        let mut st = BTreeMap::new();
+        st.insert(U256::from(2u8), U256::from(21u8));
+        st.insert(U256::from(3u8), U256::from(31u8));
+        w.accounts.insert(child, Acct { nonce: 1, balance: U256::from(5u8), code: child_runtime(), storage: st });
+    }
+    let cycles = rng.range(2, 4);
+    let mut calls: Vec<ScriptCall> = vec![];
+    for c in 0..cycles {
+        if c > 0 || !w.accounts.contains_key(&child) {
+            calls.push(ScriptCall { to: FACTORY, value: U256::from(rng.below(2)), words: vec![U256::from(salt)], gas: 400_000 });
+        }
+        for _ in 0..rng.below(3) {
+            calls.push(ScriptCall { to: child, value: U256::ZERO, words: vec![U256::from(2u8), U256::from(rng.below(4)), if rng.chance(1, 4) { U256::ZERO } else { U256::from(1 + rng.below(40)) }], gas: 100_000 });
+        }
+        if c + 1 < cycles || rng.chance(1, 2) {
+            calls.push(ScriptCall { to: child, value: U256::ZERO, words: vec![U256::from(1u8), U256::from_be_slice(rng.pick(&[SENDER1, NONEXISTENT, child]).as_slice())], gas: 100_000 });
+        }
+    }
+    let retain = !rng.chance(1, 8);
+    let pm = 1 + rng.below(3); // merge probability pm/4
+    let mut steps = vec![];
+    for (i, c) in calls.iter().enumerate() {
+        let saddr = addr(0x5000 + i as u16);
+        w.accounts.insert(saddr, Acct { nonce: 1, balance: U256::from(100u8), code: script_code(std::slice::from_ref(c), false), ..Default::default() });
+        let mut t = TxSpec { to: Some(saddr), gas_limit: 3_000_000, gas_price: U256::from(10u64), nonce: Some(i as u64), ..Default::default() };
+        if spec >= SpecId::LONDON {
+            t.gas_price = U256::from(1000u64);
+        }
+        steps.push(Step::Tx(t));
+        if rng.chance(1, 10) {
+            steps.push(Step::Increment(vec![(child, 1 + rng.below(100) as u128)]));
+        }
+        if rng.chance(pm, 4) {
+            steps.push(Step::Merge(retain));
+        }
+    }
+    if !matches!(steps.last(), Some(Step::Merge(_))) {
+        steps.push(Step::Merge(retain));
+    }
+    let mut block = BlockSpec::default();
+    block.basefee = if spec >= SpecId::LONDON { 7 } else { 0 };
+    History { spec, world: w, block, steps }
+}
+
 /// history from the generic W generator
 pub fn gen_w_history(rng: &mut Rng, spec: SpecId) -> History {
     let case = gen_case(rng, spec, 6);
